@@ -542,6 +542,7 @@ func (j *judge) run() {
 				j.refused(e)
 			case byFailures:
 				j.count("disconnect_by_failures")
+				j.count(fmt.Sprintf("disconnect_by_failures:MaxAuthTries=%d", c.maxAuthTries))
 				if s.reply == rDisconnect {
 					j.count("maxtries_disconnect_seen")
 				}
@@ -632,6 +633,10 @@ func (j *judge) checkSuccessEvidence(st *mstate, i int, s step, q reqSpec, e exp
 	}
 	if max := c.maxAuthTries; max > 0 && st.fmax == max-1 {
 		j.count("success_at_last_permitted_attempt")
+		j.count(fmt.Sprintf("success_at_last_permitted_attempt:MaxAuthTries=%d", max))
+	}
+	if c.maxAuthTries < 0 && st.fmin >= 7 {
+		j.count("success_after_many_failures_unlimited")
 	}
 	switch q.method {
 	case "none":
